@@ -259,6 +259,7 @@ def parseInfrArgs (l : Line) : Option Infr :=
 structure ProvDrv where
   impl : ProvImpl := {}
   engine : List ValSet.Val := []      -- the consensus engine's view: all returned updates folded
+  armed  : Bool := false              -- a failure of an external call is armed for the next block operation
 
 def launchEnvOf (impl : ProvImpl) (s : State) (c : CId) : LaunchEnv :=
   let x := s.get c
@@ -512,7 +513,14 @@ def provInvariants (a : Acc) (lineNo : Nat) (op : Line) (ok : Bool) (b t : State
 
 def stepProv (d : ProvDrv) (a : Acc) (s : Step) : ProvDrv × Acc :=
   let before := d.impl.absorb (s.obs.filter (·.name == "env"))
-  let r := stepProvCore d a s
+  if s.op.name == "fail" then ({ d with armed := true }, a.tag "fail-armed") else
+  if s.op.name == "clearfail" then
+    ({ d with armed := false }, if (s.ob "r").get "fired" == "1" && d.armed then a.tag "fault-fired" else a) else
+  -- with a failure armed the model (which knows nothing about it) is not compared; the C19 clauses are
+  let r := if d.armed then
+      ({ d with impl := before.absorb (s.obs.filter (·.name != "env")) }, a.tag ("faulted-" ++ s.op.name))
+    else stepProvCore d a s
+  let r := ({ r.1 with armed := d.armed }, r.2)
   let ok := (s.ob "r").get "res" == "ok"
   if s.op.name == "init" then
     ({ r.1 with engine := (parseCVals (r.1.impl.g.get "lastprov")).map fun c => { key := c.key, power := c.power } }, r.2)
@@ -520,7 +528,16 @@ def stepProv (d : ProvDrv) (a : Acc) (s : Step) : ProvDrv × Acc :=
     let b := before.toState
     let t := r.1.impl.toState
     let a := provInvariants r.2 s.lineNo s.op ok b t
-    let a := if ok then epochSpecs a s.lineNo s.op b t r.1.impl else a
+    let a := if ok && !d.armed then epochSpecs a s.lineNo s.op b t r.1.impl else a
+    -- C19: block processing never fails; failing consumer operations are rolled back
+    let a := if s.op.name == "begin" || s.op.name == "end" then
+        a.spec s.lineNo "C19.block-ok" ok s!"res={(s.ob "r").get "res"} armed={d.armed}" else a
+    let a := if s.op.name == "begin" && ok then
+        let a := a.spec s.lineNo "C19.launch-all-or-nothing" (Spec.Prov.launchAllOrNothing b t)
+        let a := a.spec s.lineNo "C19.delete-all-or-nothing" (Spec.Prov.deleteAllOrNothing b t)
+        a.spec s.lineNo "C19.clients-match-launches" (Spec.Prov.clientsMatchLaunches b t)
+      else a
+    let a := if s.op.name == "end" && ok then a.spec s.lineNo "C19.send-failure-contained" (Spec.Prov.sendFailureContained b t) else a
     -- C12 / C15 at provider EndBlock
     if s.op.name == "end" && ok then
       let o := s.ob "r"
